@@ -110,6 +110,10 @@ func (ww *conversionVisitor) visitServiceMethodNode(service *serviceBuilder, nod
 			fieldName := strcase.ToSnake(part[1:])
 			reqPathParts[idx] = "{" + fieldName + "}"
 
+		} else if strings.ContainsAny(part, "{}*:") {
+			// These are special in a google.api.http pattern, a literal path
+			// segment containing one would be read back as something else.
+			ww.addErrorf(node.Source, "invalid path part %q", part)
 		}
 	}
 
